@@ -175,6 +175,10 @@ def validate_taxonomy_tree(
             "tree has no 'hierarchy'")
     hierarchy = taxonomy_tree['hierarchy']
 
+    if len(set(hierarchy)) != len(hierarchy):
+        raise RuntimeError(
+            f"hierarchy {hierarchy} lists a level more than once")
+
     expected_keys = set(hierarchy)
     expected_keys.add('hierarchy')
     bad_keys = {'metadata', 'name_mapper', 'hierarchy_mapper'}
